@@ -341,6 +341,26 @@ theorem exp_glue (n : Nat) (A V W : FMat ℝ) (lam : Nat → ℝ)
   rw [h2, eq_conj_of_eigen _ _ _ _ hAV hVW, conj_exp _ _ _ hVW]
   simp only [ScalarReal.exp_eq]
 
+/-- the quarter-turn rotation: eigenvalues `±i`, so `getRealEigenValues()` is `(0, 0)` -/
+def rot90 : FMat ℝ := fun i j => if i = 0 ∧ j = 1 then -1 else if i = 1 ∧ j = 0 then 1 else 0
+
+/-- **Outside the property's scope, recorded as a witness.** `pow` / `exp` pass only the real
+parts of the eigenvalues to the glue. For the quarter-turn rotation (real parts `0, 0`) `pow(A, 2)`
+is the zero matrix whatever `V` and `W` are, while `A² = −1`: the wrappers are wrong for complex
+spectra (the property restricts this clause to real spectra). -/
+theorem pow_glue_drops_imaginary_parts (V W : FMat ℝ) :
+    ∃ O, powGlue 2 2 V (fun _ => 0) W 2 = .ok O ∧ toMatrix 2 O = 0 ∧ toMatrix 2 rot90 ^ 2 = -1 := by
+  obtain ⟨O, h1, h2⟩ := glue_eq (fun x => Scalar.pow x (2 : ℝ)) 2 V W (fun _ => 0)
+  refine ⟨O, h1, ?_, ?_⟩
+  · rw [h2]
+    have : (Matrix.diagonal fun _ : Fin 2 => Scalar.pow (0 : ℝ) (2 : ℝ)) = 0 := by
+      ext i j; by_cases h : i = j
+      · subst h; simp [ScalarReal.pow_eq]
+      · simp [Matrix.diagonal_apply_ne _ h]
+    rw [this, Matrix.mul_zero, Matrix.zero_mul]
+  · ext i j
+    fin_cases i <;> fin_cases j <;> simp [pow_two, toMatrix, rot90, Matrix.mul_apply, Fin.sum_univ_two]
+
 /-- non-vacuity of the hypotheses of `pow_glue` / `exp_glue`: a 2 × 2 matrix with eigenvalues 1, 3 -/
 example : ∃ (A V W : FMat ℝ) (lam : Nat → ℝ),
     toMatrix 2 A * toMatrix 2 V = toMatrix 2 V * Matrix.diagonal (fun i : Fin 2 => lam i) ∧
